@@ -14,8 +14,9 @@
     their tie to the source is the statement text in the reviewed table.
     The server half (ClientModel.handler_calls) is proved equal to the interpretation of the
     backend-call events go2coq's HandlerGen extracts from p9/handlers.go (C03_handler_table).
-    _partial: the handlers of Twalk/Twalkgetattr/Txattrwalk/Tattach (loops and branches) are
-    modelled by hand and tied by the differential only; the result mapping is proved for the client half
+    _partial: for Twalk/Twalkgetattr/Txattrwalk/Tattach (loops and branches) the backend calls and
+    delegations the source contains are tied (C03_walk_handlers_events); which of them run, in what
+    order and how often is modelled by hand and tied by the differential only; the result mapping is proved for the client half
     (C03_returns) and for errors (C03_errno_...). *)
 From Coq Require Import ZArith NArith String List Bool.
 From P9V Require Import gen.ConstGen gen.ClientGen Client.Chunk Client.ClientModel Client.ClientProofs Client.ChunkProofs Client.Errs Client.Composed Client.HandlerTie.
@@ -177,3 +178,21 @@ Theorem C03_io_split : forall cs (p : list N) off0 fid calls n e,
   Forall2 (fun b c => off_of b = Z.to_N (off0 + Z.of_nat (c_pos c))) bc calls.
 Proof. exact writeat_split. Qed.
 Print Assumptions C03_io_split.
+
+(** the handlers with loops and branches: the backend calls / delegations / fid lookups in handlers.go are these *)
+Theorem C03_walk_handlers_events :
+  calls_and_delegations "twalk.handle" = ["delegate:doWalk(cs, ref, t.Names, false)"] /\
+  calls_and_delegations "twalkgetattr.handle" = ["delegate:doWalk(cs, ref, t.Names, true)"] /\
+  calls_and_delegations "doWalk" =
+    ["delegate:walkOne(nil, ref.file, ref.pathNode, nil, getattr)";
+     "delegate:walkOne(qids, walkRef.file, walkRef.pathNode, names[i : i+1], true)"] /\
+  calls_and_delegations "walkOne" =
+    ["call:from.WalkGetAttr(names)"; "call:from.Walk(names)"; "call:sf.GetAttr(AttrMaskAll)"; "call:sf.GetAttr(AttrMaskAll)";
+     "call:sf.Close()"; "call:sf.Close()"] /\
+  calls_and_delegations "txattrwalk.handle" = ["call:ref.file.GetXattr(t.Name)"; "call:ref.file.ListXattrs()"] /\
+  calls_and_delegations "tattach.handle" =
+    ["call:attacher.Attach()"; "call:sf.GetAttr(AttrMaskAll)"; "delegate:doWalk(cs, root, names, false)"] /\
+  with_prefix "lookup:" (events "twalk.handle") = ["t.fid"] /\
+  with_prefix "lookup:" (events "twalkgetattr.handle") = ["t.fid"] /\
+  with_prefix "lookup:" (events "txattrwalk.handle") = ["t.fid"].
+Proof. exact walk_handlers_events. Qed.
